@@ -57,7 +57,18 @@ func (x *Exec) countCall(st *State, name string, args []Val, c *ssa.CallCommon) 
 	st.ghost[k] = Add(st.ghostInt(k), One)
 	for i, a := range args {
 		if a.T != nil {
-			st.ghost[fmt.Sprintf("#arg$%s$%d", name, i)] = a.T
+			k := fmt.Sprintf("#arg$%s$%d", name, i)
+			st.ghost[k] = a.T
+			// static type of the argument (for indexing / field access in contracts)
+			j := i
+			if c.IsInvoke() {
+				j = i - 1
+			}
+			if j >= 0 && j < len(c.Args) {
+				x.argTypes[k] = c.Args[j].Type()
+			} else if c.IsInvoke() && i == 0 {
+				x.argTypes[k] = c.Value.Type()
+			}
 		}
 	}
 }
